@@ -331,6 +331,7 @@ func c18Judge(w *fw.W, env *c18Env, c *c18Case) {
 	if exp.Ambiguous != "" {
 		w.Count("ambiguous_skipped", 1)
 		w.Cover("ambiguous_reasons", exp.Ambiguous)
+		w.Count("ambiguous: "+exp.Ambiguous, 1)
 		return
 	}
 	w.Trace(c)
